@@ -213,32 +213,35 @@ for _name, _extra, _note in (
 # K2: the corpus has exactly the requested annotators (plus the reference annotator when asked), none of them empty, for EVERY combination of flags
 CSH_MACROS = VIEW_MACROS + [Macro("ref", [], "self._reference_continuum"), Macro("ra", [], "self._reference_annotator"),
                             Macro("isname", ["a"], "exists(k, 0, len(annotators), annotators[k] == a)")]
-contract(F + "CorpusShufflingTool.corpus_shuffle#names",
-         params={"self": CST(), "annotators": ListOf(StrT()), "shift": BoolT(), "false_pos": BoolT(), "false_neg": BoolT(), "split": BoolT(),
-                 "cat_shuffle": BoolT(), "include_ref": BoolT()}, returns=CONT(), modifies=[], macros=CSH_MACROS,
-         calls={"self.corpus_from_reference": F + "CorpusShufflingTool.corpus_from_reference#names"},
-         requires=["RI(ref())", "Ann(ref())[ra()]", "Cnt(ref())[ra()] >= 1", "ref().bound_inf <= ref().bound_sup", "NumUnits(ref()) >= 1",
-                   "Nkeys(ref()) >= 1", "Kseq(ref())[0] == ra()",
-                   "forall([(l, Real)], implies(Cat(ref())[l], members(self._categories)[l]))",
-                   "self.magnitude >= 0", "self.SHIFT_FACTOR == 2", "self.SPLIT_FACTOR == 2.5", "len(annotators) >= 1"],
-         raises={"ValueError": {}, "AssertionError": {"iff": "include_ref and isname(ra())"}},
-         ensures=[cl("fresh_obj(result) and disjoint_state(result, ref())", "C19 C14", name="independent"),
-                  cl("forall([(a, Real)], Ann(result)[a] == (isname(a) or (include_ref and a == ra())))", "C19",
-                     name="K2-exactly-the-requested-annotators-plus-the-reference-when-asked"),
-                  cl("forall([(a, Real)], implies(Ann(result)[a], exists([(u, Unit)], Us(result)[a][u])))", "C19", name="K2-no-annotator-is-empty"),
-                  cl("RI(result)", "C19", name="K2-only-valid-units-and-known-categories"),
-                  cl("implies(include_ref, forall([(u, Unit)], Us(result)[ra()][u] == Us(ref())[ra()][u]))", "C19",
-                     name="the-reference-annotator-carries-the-reference-units")],
-         loops={"L0": dict(match="for unit in self._reference_continuum[next(iter(self._reference_continuum.annotators))]", index="jR",
-                           modifies=["continuum"], iter_name="RSNAP",
-                           inv=["RI(continuum)", "forall([(a, Real)], Ann(continuum)[a] == (isname(a) or (jR >= 1 and a == ra())))",
-                                "forall([(a, Real)], implies(isname(a), exists([(u, Unit)], Us(continuum)[a][u])))",
-                                "forall([(u, Unit)], Us(continuum)[ra()][u] == exists(j, 0, jR, seqof(RSNAP)[j] == u))",
-                                "members(RSNAP) == Us(ref())[ra()] and size(RSNAP) == Cnt(ref())[ra()]"])},
-         hooks=[("after", "continuum = self.corpus_from_reference(annotators)", "model_inv wfmap(ref())"),
-                ("after", "continuum = self.corpus_from_reference(annotators)",
-                 "assert forall([(a, Real)], implies(Ann(continuum)[a], exists([(u, Unit)], Us(continuum)[a][u])))")],
-         serves={"C19", "C14"})
+for _v, _T, _isname, _nonempty in (
+        ("names", ListOf(StrT()), "exists(k, 0, len(annotators), annotators[k] == a)", "len(annotators) >= 1"),
+        ("count", IntT(), "exists(k, 0, annotators, fstr('annotator_{}', k) == a)", "annotators >= 1")):
+    contract(F + "CorpusShufflingTool.corpus_shuffle#" + _v,
+             params={"self": CST(), "annotators": _T, "shift": BoolT(), "false_pos": BoolT(), "false_neg": BoolT(), "split": BoolT(),
+                     "cat_shuffle": BoolT(), "include_ref": BoolT()}, returns=CONT(), modifies=[], macros=CSH_MACROS[:-1] + [Macro("isname", ["a"], _isname)],
+             calls={"self.corpus_from_reference": F + "CorpusShufflingTool.corpus_from_reference#" + _v},
+             requires=["RI(ref())", "Ann(ref())[ra()]", "Cnt(ref())[ra()] >= 1", "ref().bound_inf <= ref().bound_sup", "NumUnits(ref()) >= 1",
+                       "Nkeys(ref()) >= 1", "Kseq(ref())[0] == ra()",
+                       "forall([(l, Real)], implies(Cat(ref())[l], members(self._categories)[l]))",
+                       "self.magnitude >= 0", "self.SHIFT_FACTOR == 2", "self.SPLIT_FACTOR == 2.5", _nonempty],
+             raises={"ValueError": {}, "AssertionError": {"iff": "include_ref and isname(ra())"}},
+             ensures=[cl("fresh_obj(result) and disjoint_state(result, ref())", "C19 C14", name="independent"),
+                      cl("forall([(a, Real)], Ann(result)[a] == (isname(a) or (include_ref and a == ra())))", "C19",
+                         name="K2-exactly-the-requested-annotators-plus-the-reference-when-asked"),
+                      cl("forall([(a, Real)], implies(Ann(result)[a], exists([(u, Unit)], Us(result)[a][u])))", "C19", name="K2-no-annotator-is-empty"),
+                      cl("RI(result)", "C19", name="K2-only-valid-units-and-known-categories"),
+                      cl("implies(include_ref, forall([(u, Unit)], Us(result)[ra()][u] == Us(ref())[ra()][u]))", "C19",
+                         name="the-reference-annotator-carries-the-reference-units")],
+             loops={"L0": dict(match="for unit in self._reference_continuum[next(iter(self._reference_continuum.annotators))]", index="jR",
+                               modifies=["continuum"], iter_name="RSNAP",
+                               inv=["RI(continuum)", "forall([(a, Real)], Ann(continuum)[a] == (isname(a) or (jR >= 1 and a == ra())))",
+                                    "forall([(a, Real)], implies(isname(a), exists([(u, Unit)], Us(continuum)[a][u])))",
+                                    "forall([(u, Unit)], Us(continuum)[ra()][u] == exists(j, 0, jR, seqof(RSNAP)[j] == u))",
+                                    "members(RSNAP) == Us(ref())[ra()] and size(RSNAP) == Cnt(ref())[ra()]"])},
+             hooks=[("after", "continuum = self.corpus_from_reference(annotators)", "model_inv wfmap(ref())"),
+                    ("after", "continuum = self.corpus_from_reference(annotators)",
+                     "assert forall([(a, Real)], implies(Ann(continuum)[a], exists([(u, Unit)], Us(continuum)[a][u])))")],
+             serves={"C19", "C14"})
 
 # the constructor establishes what the other contracts require of the tool: the reference annotator is the first annotator of the reference,
 # the tool's category set is a COPY of the reference's (C14) enlarged by the extra categories
